@@ -10,9 +10,11 @@ MANIFEST = {
                      "the atomic reference-count steps, any number of threads/handles/schedules; single-threaded API "
                      "histories as the special case) + differential correspondence of the model with the real String / "
                      "Variant / Xml::Variant / RefCount::Ptr code under a ledger allocator and a controlled scheduler",
-        "text": "Theorems (Props.lean: mt_safe, mt_ref_inflight, mt_step_safe, mt_write_sole, mt_view_stable, mt_sched_safe for all thread counts, programs "
-                "and schedules; ref_counts_handles, freed_once_after_last, no_inplace_write_while_shared, st_write_sole, st_quiet for all "
-                "single-threaded API histories) over every reachable state of the Lean model (heap of counted blocks, handle slots owned by threads, "
+        "text": "Theorems (Props.lean: mt_safe, mt_safe_nested, mt_embedded_write_sole, mt_embedded_take_on_release, mt_embedded_stable, "
+                "mt_ref_inflight, mt_step_safe, mt_write_sole, mt_view_stable, mt_sched_safe for all thread counts, programs and schedules, "
+                "including handles embedded in payloads; ref_counts_handles, freed_once_after_last, no_inplace_write_while_shared, "
+                "st_write_sole, st_quiet for all single-threaded API histories; apiRun_total_partial / apiStep_total_partial: well-formed "
+                "String/Variant/Xml::Variant calls are never rejected by the model) over every reachable state of the Lean model (heap of counted blocks, handle slots owned by threads, "
                 "atomic steps inc / dec-and-test / plain counter read / alloc / in-place write / free): counter = number of "
                 "handles (in-flight increments are handles in scratch slots), no step touches a released block, every block is "
                 "released at most once and exactly when its last handle has gone, an in-place write happens only through the sole "
@@ -26,8 +28,10 @@ MANIFEST = {
         "note": "Trusted: Lean kernel + the three standard axioms; the hand translation of the API calls into step sequences "
                 "(Model.lean pre/post), validated by the correspondence run only; sequentially consistent atomics (__sync_* are "
                 "full barriers) - TSO/compiler reordering of the plain counter reads is not modelled; payload content is flat "
-                "(the String inside a Variant/Xml::Variant block and the list nodes are internal allocations, checked only by "
-                "the ledger's leak/double-free accounting at the end of each history); allocation never fails; the controlled "
+                "except for the `next` handle embedded in RefCount objects (the String inside a Variant/Xml::Variant block and the list/array/map "
+                "nodes are internal allocations, checked only by the ledger's leak/double-free accounting at the end of each history; "
+                "cross-kind sharing Variant<->String is not in the correspondence); String::printf, resize and the writes to embedded "
+                "handles (plink) are exercised single-threaded only; allocation never fails; the controlled "
                 "interleavings of plain counter reads need the add-only hook patch fixes/rc/hook-01 (without it those reads "
                 "execute together with the preceding atomic step, and the model is run the same way).",
         "design_ref": "DESIGN.md 3/C09",
@@ -635,8 +639,10 @@ def check(ctx):
             f"of their first {d3} points; a thread is descheduled before and after every atomic operation on a payload counter (counter-read hooks {'present' if hooks else 'ABSENT: plain reads are not scheduling points'}); "
             "distinct_nontrivial = distinct (op-kind set, final observation) among histories in which a payload was shared")
         ctx.cov["exhaustive"] = False
-        ctx.cov["open_statements"] = ["mt_safe_nested (handles nested inside shared payloads read concurrently: Props.lean OPEN block); "
-                                      "payload content is flat in the model"]
+        ctx.cov["open_statements"] = ["payloads with several embedded handles (Variants inside list/map payloads, Xml element children), in-place writes "
+                                      "through an embedded handle and the cross-kind calls Variant = String variable / String = variant.toString() "
+                                      "(Props.lean OPEN block)",
+                                      "apiRun_total for the RefCount::Ptr calls that walk through embedded handles (Props.lean OPEN block)"]
         ctx.cov["exhaustive_scope"] = (f"single-threaded length<={depth} per kind: {len(ex)} histories; "
                                        f"schedules: all of {{t1,t2}}^{d2} for {len(mte) // 2 ** d2} scenarios, all of {{t1,t2,t3}}^{d3} for {len(mte3) // 3 ** d3} scenarios")
         ops = {}
